@@ -66,6 +66,9 @@ type Opts struct {
 	MaxSubs     int
 	EI          bool // programs may contain EI / DI sections
 	StartEI     bool // first instruction (after LD SP) is EI
+	// StackTop != 0: the stack starts there instead of somewhere in [StackLo+0x800, StackHi), e.g. at
+	// 0x0001..0x0005 so that frames wrap from 0x0000 to 0xFFFF (nothing else lives at 0xF000..0xFFFF)
+	StackTop uint16
 }
 
 type builder struct {
@@ -429,6 +432,9 @@ func Structured(r *world.Rng, o Opts) *Prog {
 	mb := &builder{r: r, o: o, addr: Org, subs: subAddrs}
 	if r.Chance(2, 3) {
 		sp := uint16(r.Range(StackLo+0x800, StackHi))
+		if o.StackTop != 0 {
+			sp = o.StackTop
+		}
 		mb.emit(0x31, uint8(sp), uint8(sp>>8))
 	}
 	if o.StartEI {
@@ -443,6 +449,9 @@ func Structured(r *world.Rng, o Opts) *Prog {
 	regs := world.RandRegs(r)
 	regs.PC = Org
 	regs.SP = uint16(r.Range(StackLo+0x800, StackHi))
+	if o.StackTop != 0 {
+		regs.SP = o.StackTop
+	}
 	regs.IFF1, regs.IFF2 = false, false
 	p.Regs = regs
 	return p
